@@ -408,6 +408,9 @@ def run(chk):
         http_no_match(chk, prog, cfg)
         fresh_lookup(chk, prog, cfg)
         literal_matching(chk, prog, cfg)
+        # the path that is matched is the target up to its first '?'
+        from . import shared
+        shared.target_split(chk, prog, "R7.path_without_query", cfg=cfg)
     for k in sorted(set(facts["A"]) | set(facts["B"])):
         va, vb = facts["A"].get(k), facts["B"].get(k)
         chk.ob("R.sibling", "routing[A] vs routing[B]", f"{k[0]}: {k[1]}", va == vb, f"threaded: {va}, tokio: {vb}")
